@@ -461,7 +461,7 @@ pub fn run(env: &Env) -> i32 {
                     Err(_) => false,
                 }
             };
-            if sig.starts_with("resource:") || sig == "watchdog" {
+            if sig.starts_with("resource:") || sig == "watchdog" || std::env::var("VERIF_NOMIN").is_ok() {
                 // each probe may cost a full CPU limit; report unminimised
                 b.case.clone()
             } else if fails(&b.case) {
